@@ -14,6 +14,11 @@
 (*            (specific, renamed, deferred, generic), finaliser            *)
 (*   "iface"  interface blocks (generic / operator / assignment, abstract, *)
 (*            explicit), enum, common blocks, namelist                     *)
+(*   "multi"  one declaration statement naming one to three entities, each *)
+(*            with its own dimensions / initial value / character length,  *)
+(*            with or without "::", with a DIMENSION attribute             *)
+(*   "head"   one procedure heading: result type forms in front of          *)
+(*            FUNCTION, prefixes in either order, RESULT clause, BIND(C)   *)
 (* The reference observable is the declared-facts part of the case         *)
 (* (`facts`), which by construction does not mention `spelling`:           *)
 (* SpellingIndependence.                                                   *)
@@ -21,6 +26,10 @@
 EXTENDS Naturals, Sequences, FiniteSets, TLC
 
 CONSTANT Slice
+
+(* how a statement that contains a comma is laid out: on one line; continued after the comma; continued with a blank *)
+(* line and a comment-only line between the two parts and a leading "&" on the continuation                          *)
+Layouts == {"plain", "cont", "contgap"}
 
 VARIABLES facts, spelling, phase
 vars == <<facts, spelling, phase>>
@@ -52,9 +61,11 @@ WFDecl(d) ==
                                  /\ (d.role # "dummy" => "pointer" \in d.attrs))
   /\ (d.base = "class") => (d.role = "dummy" \/ d.attrs \cap {"allocatable", "pointer"} # {}) /\ "parameter" \notin d.attrs /\ "value" \notin d.attrs
   /\ (d.base = "type") => "parameter" \notin d.attrs
-  /\ ("parameter" \in d.attrs) => d.init = "value"
+  /\ ("parameter" \in d.attrs) => d.init \in {"value", "array"}
   /\ (d.init = "null") => "pointer" \in d.attrs
   /\ (d.init = "value") => (d.role # "dummy" /\ d.base \in Numeric \cup {"character", "doubleprecision"} /\ d.attrs \cap {"allocatable", "pointer"} = {} /\ d.dims = "none")
+  /\ (d.init = "array") => (d.role # "dummy" /\ d.base \in Numeric \cup {"character", "doubleprecision"} /\ d.attrs \cap {"allocatable", "pointer"} = {} /\ d.dims = "explicit"
+                            /\ ("parameter" \in d.attrs => d.place["parameter"] = "decl"))
   /\ (d.kindsp \in {"assumed"}) => (d.role = "dummy" \/ "parameter" \in d.attrs)
   /\ (d.kindsp = "deferred") => (d.attrs \cap {"allocatable", "pointer"} # {})
   /\ (d.dims = "deferredshape") <=> (d.attrs \cap {"allocatable", "pointer"} # {} /\ d.dims # "none")
@@ -95,33 +106,62 @@ WFType(t) ==
 (* ---- interface slice --------------------------------------------------------------------- *)
 IfaceKinds == {"generic_modproc", "generic_body", "operator", "assignment", "abstract", "explicit", "enum", "common1", "common2", "commonblank", "namelist"}
 
+(* ---- multi-entity declaration statements ----------------------------------------------------- *)
+EntDims == {"none", "d3", "d22"}
+MultiEnt(b, dc) == [dims : EntDims, init : (IF dc THEN {"none", "value"} ELSE {"none"}), clen : (IF b = "character" THEN {"none", "star5"} ELSE {"none"})]
+WFMulti(m) ==
+  /\ Len(m.ents) \in 1..3
+  /\ (m.attrdim # "none") => m.dcolon
+  /\ \A i \in 1..Len(m.ents) : (m.ents[i].init = "value") => (m.ents[i].dims = "none" /\ m.attrdim = "none")
+
+(* ---- procedure headings ----------------------------------------------------------------------- *)
+ResTypes == {"decl", "integer", "realparen", "realstar", "realkind", "double", "char5", "charstar", "charlenkind", "typet", "logical"}
+WFHead(h) ==
+  /\ (h.kind = "subroutine") => (h.restype = "decl" /\ ~h.resclause)
+  /\ Cardinality(h.prefix) <= 2
+  /\ ~({"pure", "impure"} \subseteq h.prefix) /\ ~({"elemental", "recursive"} \subseteq h.prefix)
+  /\ (h.bindc # "none") => ("elemental" \notin h.prefix /\ h.restype \in {"decl", "integer", "realparen", "logical"})
+  /\ (h.restype = "charstar") => FALSE \/ h.kind = "function"
+
 Init == facts = << >> /\ spelling = << >> /\ phase = "init"
 Choose ==
   /\ phase = "init"
   /\ CASE Slice = "decl" ->
             \E b \in Bases, r \in Roles : \E ks \in KindSp(b) :
             \E as \in {S \in SUBSET AttrsFor(r) : Cardinality(S) <= 2} :
-            \E dm \in {"none", "explicit", "deferredshape"}, df \in {"none", "entity", "attr", "stmt"}, ini \in {"none", "value", "null"} :
+            \E dm \in {"none", "explicit", "deferredshape"}, df \in {"none", "entity", "attr", "stmt"}, ini \in {"none", "value", "null", "array"} :
             \E pl \in [as -> {"decl", "stmt"}] :
                LET dd == [base |-> b, kindsp |-> ks, role |-> r, attrs |-> as, dims |-> dm, dimform |-> df, init |-> ini, place |-> pl] IN
                /\ WFDecl(dd) /\ facts' = dd
-               /\ \E up \in BOOLEAN : spelling' = [upper |-> up]
+               /\ \E up \in BOOLEAN, lay \in Layouts, ct \in (IF ini = "array" THEN {"bracket", "slash"} ELSE {"bracket"}) :
+                     spelling' = [upper |-> up, layout |-> lay, ctor |-> ct]
        [] Slice = "unit" ->
             \E u \in [kind : UnitKinds, nargs : 0..2, argdecl : {"none", "typed", "intent", "implicit", "dummyproc", "dummyprocopt"},
                       resform : {"none", "prefix", "result", "resultdecl", "namedecl"}, prefix : SUBSET {"pure", "elemental", "recursive"},
                       inner : 0..2, named : BOOLEAN, where : {"file", "module"}, endsp : EndSp] :
                /\ WFUnit(u) /\ Cardinality(u.prefix) <= 1
                /\ facts' = [x \in DOMAIN u \ {"endsp"} |-> u[x]]
-               /\ \E up \in BOOLEAN : spelling' = [upper |-> up, endsp |-> u.endsp]
+               /\ \E up \in BOOLEAN : spelling' = [upper |-> up, endsp |-> u.endsp, layout |-> "plain"]
        [] Slice = "type" ->
             \E t \in [extends : BOOLEAN, abstract : BOOLEAN, bindc : BOOLEAN, access : {"none", "public", "private"}, sequence : BOOLEAN,
                       ncomp : 0..2, nbind : 0..2, renamed : BOOLEAN, deferred : BOOLEAN, generic : BOOLEAN, final : BOOLEAN, privcomp : BOOLEAN] :
                /\ WFType(t) /\ facts' = t
-               /\ \E up \in BOOLEAN, dc \in BOOLEAN : spelling' = [upper |-> up, dcolon |-> dc]
+               /\ \E up \in BOOLEAN, dc \in BOOLEAN, lay \in Layouts : spelling' = [upper |-> up, dcolon |-> dc, layout |-> lay]
+       [] Slice = "multi" ->
+            \E b \in {"integer", "real", "character"}, dc \in BOOLEAN, n \in 1..3, ad \in {"none", "d4"}, tl \in {"none", "kind"} :
+            \E es \in [1..n -> MultiEnt(b, dc)] :
+               LET m == [base |-> b, dcolon |-> dc, attrdim |-> ad, typelen |-> tl, ents |-> es] IN
+               /\ WFMulti(m) /\ facts' = [x \in DOMAIN m \ {"dcolon"} |-> m[x]]
+               /\ \E up \in BOOLEAN, tight \in BOOLEAN, lay \in Layouts : spelling' = [upper |-> up, tight |-> tight, dcolon |-> dc, layout |-> lay]
+       [] Slice = "head" ->
+            \E h \in [kind : {"function", "subroutine"}, restype : ResTypes, prefix : SUBSET {"pure", "impure", "elemental", "recursive"},
+                      resclause : BOOLEAN, bindc : {"none", "plain", "named"}, nargs : 0..1] :
+               /\ WFHead(h) /\ facts' = h
+               /\ \E up \in BOOLEAN, tf \in BOOLEAN, lay \in Layouts : spelling' = [upper |-> up, typefirst |-> tf, layout |-> lay]
        [] Slice = "iface" ->
             \E k \in IfaceKinds, n \in 1..2 :
                /\ facts' = [kind |-> k, n |-> n]
-               /\ \E up \in BOOLEAN : spelling' = [upper |-> up]
+               /\ \E up \in BOOLEAN, lay \in Layouts : spelling' = [upper |-> up, layout |-> lay]
   /\ phase' = "done"
 Next == Choose
 Spec == Init /\ [][Next]_vars
